@@ -133,6 +133,25 @@ func (ke *keyEval) evalBytes(v ssa.Value, env *keyEnv) []Seg {
 		return []Seg{{SegUnknown, "slice-expr"}}
 	case *ssa.MakeSlice:
 		if n, ok := constInt(x.Len); ok {
+			if n == 8 {
+				// an 8-byte buffer filled by binary.<order>.PutUint64(buf, v)
+				for _, r := range *x.Referrers() {
+					cl, isCall := r.(*ssa.Call)
+					if !isCall || !cl.Call.IsInvoke() && cl.Call.StaticCallee() == nil {
+						continue
+					}
+					name := calleeName(cl)
+					if strings.HasSuffix(name, "bigEndian.PutUint64") {
+						as := callArgs(cl)
+						if len(as) == 2 && as[0] == ssa.Value(x) {
+							return []Seg{{SegU64, ke.srcOf(as[1], env)}}
+						}
+					}
+					if strings.HasSuffix(name, "littleEndian.PutUint64") {
+						return []Seg{{SegUnknown, "little-endian integer (iteration order is not numeric order)"}}
+					}
+				}
+			}
 			return []Seg{{SegFixed, fmt.Sprint(n)}}
 		}
 		return []Seg{{SegUnknown, "make"}}
@@ -290,6 +309,28 @@ func (ke *keyEval) evalArrayLit(al *ssa.Alloc, env *keyEnv) []Seg {
 	}
 	if eb, ok := arr.Elem().Underlying().(*types.Basic); ok && eb.Kind() == types.Uint8 && allUnset {
 		// make([]byte, n) with constant n: a fixed-size buffer filled in place (PutUint64 etc.)
+		if arr.Len() == 8 {
+			for _, r := range *al.Referrers() {
+				sl, isSl := r.(*ssa.Slice)
+				if !isSl {
+					continue
+				}
+				for _, rr := range *sl.Referrers() {
+					cl, isCall := rr.(*ssa.Call)
+					if !isCall {
+						continue
+					}
+					name := calleeName(cl)
+					as := callArgs(cl)
+					if strings.HasSuffix(name, "bigEndian.PutUint64") && len(as) == 2 && as[0] == ssa.Value(sl) {
+						return []Seg{{SegU64, ke.srcOf(as[1], env)}}
+					}
+					if strings.HasSuffix(name, "littleEndian.PutUint64") {
+						return []Seg{{SegUnknown, "little-endian integer (iteration order is not numeric order)"}}
+					}
+				}
+			}
+		}
 		return []Seg{{SegFixed, fmt.Sprint(arr.Len())}}
 	}
 	for _, e := range elems {
@@ -334,4 +375,17 @@ func returnsBytes(f *ssa.Function) bool {
 	}
 	b, ok := sl.Elem().Underlying().(*types.Basic)
 	return ok && b.Kind() == types.Uint8
+}
+
+// KeyShapeIs: the key constructor evaluates to exactly the given shape. Used for key spaces whose
+// iteration order carries meaning (FIFO indexes, time queues, height tables): the ordered segment
+// must be a big-endian integer or a sortable time encoding directly after the fixed part.
+func (c *Ctx) KeyShapeIs(spec, want, why string) {
+	f := c.Fn(spec)
+	if f == nil {
+		return
+	}
+	ke := &keyEval{p: c.P}
+	got := shapeString(ke.evalFunc(f, nil, nil))
+	c.Check(got == want, fk(f, "ordered-key-shape"), f, fmt.Sprintf("%s: key = %s; found %s", why, want, got))
 }
